@@ -11,26 +11,33 @@ from sa import astutil as U, nf
 from sa.loader import norm_text, dotted
 
 
+# UPPER_CASE module-level names bound once to a literal container (dict / set / tuple / list), one value program-wide; set by the
+# framework for every run, read by the membership test of tv
+CONTAINERS = {}
+
+
 def _cmp(left, op, right, subst, env):
-  try:
-    c = nf.compare_nf(ast.Compare(left=left, ops=[op], comparators=[right]), dict(env or {}))
-  except nf.NFError:
-    c = None
-  if c is None:
+  def numeric():
     a, b = fold_numeric(left, subst), fold_numeric(right, subst)
     fn = {ast.Lt: lambda x, y: x < y, ast.LtE: lambda x, y: x <= y, ast.Gt: lambda x, y: x > y, ast.GtE: lambda x, y: x >= y,
           ast.Eq: lambda x, y: x == y, ast.NotEq: lambda x, y: x != y}.get(type(op))
     if a is None or b is None or fn is None:
       return None
     return fn(a, b)
+  try:
+    c = nf.compare_nf(ast.Compare(left=left, ops=[op], comparators=[right]), dict(env or {}))
+  except nf.NFError:
+    c = None
+  if c is None:
+    return numeric()
   e, sym = c
   try:
     e = e.subst(subst)
   except Exception:
-    return None
+    return numeric()
   k = e.const_value()
   if k is None:
-    return None
+    return numeric()      # an atom the normal form keeps opaque (x % n, x // n, a call) may still fold once the values are in
   return {'<': k < 0, '<=': k <= 0, '==': k == 0, '!=': k != 0}[sym]
 
 
@@ -86,6 +93,25 @@ def tv(test, subst, env=None):
     if isinstance(test.op, ast.And):
       return False if any(x is False for x in vals) else (True if all(x is True for x in vals) else None)
     return True if any(x is True for x in vals) else (False if all(x is False for x in vals) else None)
+  if isinstance(test, ast.Compare) and len(test.ops) == 1 and isinstance(test.ops[0], (ast.In, ast.NotIn)):
+    # membership of a number in a literal container (written out, or a module-level constant published in CONTAINERS)
+    k = fold_numeric(test.left, subst)
+    c = test.comparators[0]
+    box = None
+    if isinstance(c, (ast.Tuple, ast.List, ast.Set, ast.Dict)):
+      try:
+        box = ast.literal_eval(c)
+      except (ValueError, SyntaxError):
+        box = None
+    elif isinstance(c, (ast.Name, ast.Attribute)):
+      box = CONTAINERS.get(c.id if isinstance(c, ast.Name) else c.attr)
+    if k is None or box is None:
+      return None
+    try:
+      inside = any(k == x for x in box)
+    except TypeError:
+      return None
+    return inside if isinstance(test.ops[0], ast.In) else not inside
   if isinstance(test, ast.Compare):
     ops = [test.left] + list(test.comparators)
     vals = [_cmp(a, o, b, subst, env) for a, o, b in zip(ops, test.ops, ops[1:])]
